@@ -120,7 +120,9 @@ def plan(pid: str, tier: str, seed: int) -> dict:
     core = [PR.by_name(n) for n in CORE]
     extra = [PR.by_name(n) for n in EXTRA if n != "transientinf"]
     if pid == "C01":
-        progs = core + [PR.by_name(n) for n in (("before1", "after1", "siblingfail") if quick else SYN)] + ([] if quick else extra)
+        progs = core + [PR.by_name(n) for n in (("before1", "after1", "siblingfail") if quick else SYN)] + ([] if quick else extra) \
+            + [p for p in PR.lazy_family() if not quick or p["name"] in ("lazychain", "lazyfail")] \
+            + ([] if quick else PR.split_family())
         return dict(
             progs=progs, props=["C01_SameOutcome", "C01_ExecBound", "C01_NothingStranded", "C01_SameData"],
             jobs=lambda refs: [
@@ -140,11 +142,12 @@ def plan(pid: str, tier: str, seed: int) -> dict:
             ]),
             mc=[(n, {"MaxCrashes": 1, "AnyOrder": "FALSE"}, {}) for n in ("chain2", "diamond", "selfloop", "poll")]
                + [(n, {"MaxCrashes": 1, "AnyOrder": "TRUE"}, {}) for n in ("chain2", "termchain")]
+               + [("lazychain", {"MaxCrashes": 1, "AnyOrder": "FALSE"}, {}), ("lazy1", {"MaxCrashes": 2, "AnyOrder": "TRUE"}, {})]
                + ([] if quick else [(n, {"MaxCrashes": 2, "AnyOrder": "FALSE", "MaxSweeps": 1}, {}) for n in
                                     ("chain2", "diamond", "failbranch", "firstof", "cycle2")]),
         )
     if pid == "C02":
-        progs = core + extra + [PR.by_name(n) for n in SYN] + PR.split_family()
+        progs = core + extra + [PR.by_name(n) for n in SYN] + PR.split_family() + PR.lazy_family()
         nseed = 24 if quick else 400
         return dict(
             progs=progs, props=["C02_SameOutcome", "C02_StartOnce", "C02_NoReexec", "C02_ExecExact", "C01_SameData"],
@@ -260,7 +263,7 @@ def plan(pid: str, tier: str, seed: int) -> dict:
                + [(n, {"AnyOrder": "FALSE", "MaxWithhold": 2, "MaxCrashes": 1}, {}) for n in ("chain2", "diamond")],
         )
     if pid == "C10":
-        progs = core + [PR.by_name(n) for n in ("before2", "after1")] + ([] if quick else extra)
+        progs = core + [PR.by_name(n) for n in ("before2", "after1", "lazychain")] + ([] if quick else extra + PR.lazy_family()[2:])
         return dict(
             progs=progs, props=["C10_SweepHarmless", "C10_NoExtraExec", "C02_StartOnce", "C01_SameOutcome"],
             jobs=lambda refs: [{"kind": "inject", "prog": p, "what": "sweep", "at": at, "times": t}
